@@ -300,11 +300,19 @@ def _q5(run: Run) -> None:
 
     class R(PyReader):
 
+        def is_instance(self, v, names, n):
+            return self._kind_test(v, set(names), n)
+
         def hook_call(self, n, env, fns):
             name = dotted(n.func) or ""
             if name == "isinstance" and len(n.args) == 2:
                 v = self.ev(n.args[0], env, fns)
                 kinds = {(dotted(e) or "").split(".")[-1] for e in (n.args[1].elts if isinstance(n.args[1], ast.Tuple) else [n.args[1]])}
+                return self._kind_test(v, kinds, n)
+            return self._other_call(n, env, fns)
+
+        def _kind_test(self, v, kinds, n):
+            if True:
                 if not isinstance(v, (T, int)):
                     return False
                 if isinstance(v, int):
@@ -322,6 +330,9 @@ def _q5(run: Run) -> None:
                 if unknown and not res:
                     self.fail(n, f"isinstance against {sorted(unknown)} is not modelled")
                 return res
+
+        def _other_call(self, n, env, fns):
+            name = dotted(n.func) or ""
             if name == "fraction" and len(n.args) == 1:
                 v = self.ev(n.args[0], env, fns)
                 nu, de = num(1), num(1)
